@@ -173,6 +173,25 @@ class Engine:
                 return self.giveup("size of *arg%d unknown" % base[1])
             self.content[base] = self.whole(("argref", base[1]), size)
             return self.content[base]
+        if base[0] == "field" and isinstance(base[1], tuple) and base[1][0] == "local" and len(base[2]) == 1 and isinstance(base[2][0], int):
+            # a field of a local that holds a whole by-value parameter (directly or inside ManuallyDrop - a transparent wrapper): the bytes of that
+            # parameter's field, wherever the (unspecified) struct layout puts it
+            held = at_mem.get((base[1], ()))
+            lt = a.local_ty(base[1][1])
+            while lt is not None and lt.get("k") == "adt" and lt["def"] in ("core::mem::ManuallyDrop", "core::mem::MaybeUninit"):
+                lt = adt_args(lt)[0]
+            adt = a.db.adts.get(lt["def"]) if lt is not None and lt.get("k") == "adt" else None
+            if isinstance(held, tuple) and len(held) == 3 and held[0] == "V" and held[1] == "arg" and isinstance(held[2], int) and adt is not None \
+                    and adt.get("kind") == "Struct" and base[2][0] < len(adt["fields"]):
+                from .mirxf import subst_types
+                gen = [g["n"] for g in adt.get("generics", []) if g.get("kind") in ("type", "const")]
+                targs = [x for x in (lt.get("args") or []) if x.get("k") != "region"]
+                if len(gen) == len(targs):
+                    fty = subst_types(adt["fields"][base[2][0]]["ty"], dict(zip(gen, targs)))
+                    size = self.size_of(fty)
+                    if size is not None:
+                        self.content[base] = self.whole(("field", ("arg", held[2]), base[2]), size)
+                        return self.content[base]
         return self.giveup("storage object %r not understood" % (base,))
 
     def field_layout(self, adt_path, ty, depth=0):
